@@ -32,6 +32,17 @@ import (
 
 var errInjected = errors.New("injected resolver failure")
 
+// the failure injected at an odd call index additionally wraps the library's own "package not found" sentinel (what
+// the simple, gobuild and gopackages resolvers return): the identity of the error must not matter for how it surfaces
+var errInjectedNotFound = fmt.Errorf("%w (%w)", errInjected, resolver.ErrPackageNotFound)
+
+func (f *faultCtl) err() error {
+	if f.calls%2 == 1 {
+		return errInjectedNotFound
+	}
+	return errInjected
+}
+
 // faulty resolvers: every call asks the explorer whether to fail (one failure per attempt at most).
 type faultCtl struct {
 	c      *explore.Chooser
@@ -58,7 +69,7 @@ type faultyDec struct {
 
 func (r faultyDec) ResolveIdent(file *ast.File, parent ast.Node, parentField string, id *ast.Ident) (string, error) {
 	if r.ctl.ask() {
-		return "", errInjected
+		return "", r.ctl.err()
 	}
 	return r.inner.ResolveIdent(file, parent, parentField, id)
 }
@@ -87,7 +98,7 @@ type faultyRes struct {
 
 func (r faultyRes) ResolvePackage(path string) (string, error) {
 	if r.ctl.ask() {
-		return "", errInjected
+		return "", r.ctl.err()
 	}
 	return r.inner.ResolvePackage(path)
 }
